@@ -12,7 +12,8 @@ Sub(name) == LET X == {i \in 1..Len(O.submission) : O.submission[i][1] = name} I
 C11Env ==
   /\ Check("title", O.title = ExpTitle(S))
   /\ Check("instance_id", Attr("id") = ExpId(S))
-  /\ Check("version", Attr("version") = Opt(S, "version"))
+  \* a custom attribute::version may supply the version only when there is no version setting; it never overrides one
+  /\ Check("version", Attr("version") = (IF Has(S, "version") THEN Val(S, "version") ELSE Opt(S, "attr_version")))
   /\ Check("root_element_name", O.root = ExpRoot(S))
   /\ Check("instance_name_calculate", O.instance_name = Opt(S, "instance_name"))
   /\ Check("submission_present_iff_needed",
